@@ -109,3 +109,25 @@ Proof.
   destruct (t =? 0); [wf_tac|]. destruct (t =? 1); [|destruct (t =? 2); [|wf_tac]];
     unfold stp_base, stp_certs; wf_msg.
 Qed.
+Lemma wf_CompressedCertificate : wf_fmt fmt_CompressedCertificate. Proof. wf_tac. Qed.
+Lemma wf_RecordHeader2 : wf_fmt fmt_RecordHeader2.
+Proof.
+  unfold fmt_RecordHeader2. cbn [wf_fmt]. split; [lia|]. intros t. destruct (128 <=? t); wf_tac.
+Qed.
+Lemma wf_ClientHelloSSL2_inner cl sl rl :
+  wf_fmt (if (0 <=? cl) && (cl mod 3 =? 0) && (0 <=? sl) && (0 <=? rl)
+          then fseq [FFix cl; FFix sl; FFix rl] else FFail).
+Proof.
+  destruct ((0 <=? cl) && (cl mod 3 =? 0) && (0 <=? sl) && (0 <=? rl)) eqn:E; [|wf_tac].
+  apply andb_true_iff in E. destruct E as [E E4]. apply andb_true_iff in E. destruct E as [E E3].
+  apply andb_true_iff in E. destruct E as [E1 E2].
+  cbn [fseq wf_fmt delim]. split; [exact I|]. split; [lia|]. split; [exact I|]. split; lia.
+Qed.
+
+Lemma wf_ClientHelloSSL2 : wf_fmt fmt_ClientHelloSSL2.
+Proof.
+  unfold fmt_ClientHelloSSL2. cbn [fseq wf_fmt delim].
+  split; [exact I|]. split; [lia|]. split; [exact I|]. split; [lia|]. split; [exact I|]. split; [lia|].
+  split; [lia|]. intros cl. cbn [wf_fmt]. split; [lia|]. intros sl. cbn [wf_fmt]. split; [lia|]. intros rl.
+  apply wf_ClientHelloSSL2_inner.
+Qed.
